@@ -35,7 +35,8 @@ def token(i, p, width, salt=0):
 def build(cfg):
     from amaranth_soc import wishbone
     aw, dw, gran = cfg.get("aw", 2), cfg["dw"], cfg["gran"]
-    arb = wishbone.Arbiter(addr_width=aw, data_width=dw, granularity=gran, features=cfg["afeat"])
+    afeat = cfg["afeat"] if not cfg.get("feat_enum") else {wishbone.Feature(f) for f in cfg["afeat"]}
+    arb = wishbone.Arbiter(addr_width=aw, data_width=dw, granularity=gran, features=afeat)
     intrs = []
     rejected = None
     for k, ic in enumerate(cfg["intrs"]):
@@ -48,7 +49,8 @@ def build(cfg):
                 arb.add(bad)
             except ValueError:
                 rejected = bad
-        bus = wishbone.Interface(addr_width=aw, data_width=dw, granularity=ic["gran"], features=ic["feat"],
+        ifeat = ic["feat"] if not cfg.get("feat_enum") else frozenset(wishbone.Feature(f) for f in ic["feat"])
+        bus = wishbone.Interface(addr_width=aw, data_width=dw, granularity=ic["gran"], features=ifeat,
                                  path=(f"i{k}",))
         arb.add(bus)
         intrs.append(bus)
@@ -231,6 +233,8 @@ def configs(tier):
             intrs = [dict(gran=g, feat=af) for g in igs]
             add(dict(dw=dw, gran=gran, afeat=af, intrs=intrs, aw=1))
     add(dict(dw=8, gran=8, afeat=("lock", "stall"), intrs=[dict(gran=8, feat=("lock", "stall")) for _ in range(3)], elab_twice=True))
+    for af in (("lock",), FEATS, ("err", "stall", "cti")):
+        add(dict(dw=8, gran=8, afeat=af, intrs=[dict(gran=8, feat=intr_features(af, "mixed", k)) for k in range(2)], feat_enum=True))
     # a refused add() in the middle of the history must leave no trace
     for af in (("err",), ("err", "rty", "lock")):
         for n, pos in ((2, 1), (3, 1), (3, 2)):
